@@ -380,6 +380,13 @@ class VCtx:
         t = c.t if c.is_bool else (c.t != 0)
         CTX.oblige(f"{self.contract.qualname}#{clause}", t, kind, meta={"scenario": self.scenario})
 
+    def lemma(self, clause, cond):
+        """intermediate fact: proved as an obligation of its own, then available
+        (quantifier-free) to the obligations that follow"""
+        c = as_sym(cond)
+        CTX.oblige(f"{self.contract.qualname}#{clause}", c.t, "lemma", meta={"scenario": self.scenario})
+        CTX.assume(c.t)
+
     def ensure_eq(self, clause, got, want, kind="post"):
         g, w = as_sym(got), as_sym(want)
         gn, wn = core.to_z3_bool(g.nan), core.to_z3_bool(w.nan)
@@ -400,8 +407,20 @@ class VCtx:
 
     def value(self, da, pos):
         if isinstance(da, X.DA):
-            return da.at(pos)
+            return da.at({d: pos[d] for d in da.dims})
+        if isinstance(da, A.Arr):
+            return da._as_sym()
         return as_sym(da)
+
+    def forall(self, n, fn, name="i", lo=0):
+        """universally quantified goal over lo <= i < n (skolemised)"""
+        i = H.sym_int(core.fresh_name(name))
+        CTX.assume(z3.And(i.t >= as_sym(lo).t, i.t < as_sym(n).t))
+        return as_sym(fn(i))
+
+    def implies(self, a, b):
+        a, b = as_sym(a), as_sym(b)
+        return Sym(z3.Implies(a.t, b.t))
 
 
 class CCtx:
@@ -451,6 +470,8 @@ class CCtx:
                     a = r.uniform(0, 5, shp) * (r.uniform(0, 1, shp) < 0.3)
                 else:
                     a = r.integers(0, 3, shp).astype(float)
+                if not sorted_inc and not positive and self.rng.random() < 0.3:
+                    a = a * 10.0 ** self.rng.choice([-9, -7, -5, -3, 3, 5])
                 if positive:
                     a = real_np.abs(a) + 0.01 + r.uniform(0, 0.5, shp)
                 if sorted_inc:
@@ -532,6 +553,9 @@ class CCtx:
         if not bool(cond):
             self.failures.append((clause, "condition false", None, None))
 
+    def lemma(self, clause, cond):
+        self.ensure(clause, cond)
+
     def ensure_eq(self, clause, got, want, kind="post"):
         self.checked += 1
         g = float(real_np.asarray(got))
@@ -552,8 +576,17 @@ class CCtx:
 
     def value(self, da, pos):
         if hasattr(da, "isel"):
-            return float(da.isel({d: pos[d] for d in da.dims if d in pos}).values)
-        return float(da)
+            v = da.isel({d: pos[d] for d in da.dims if d in pos}).values
+            return int(v) if v.dtype.kind in "iu" else real_np.float64(v)
+        if isinstance(da, (int, real_np.integer)):
+            return int(da)
+        return real_np.float64(da)
+
+    def forall(self, n, fn, name="i", lo=0):
+        return all(bool(fn(i)) for i in range(int(lo), int(n)))
+
+    def implies(self, a, b):
+        return (not a) or bool(b)
 
 
 def da_from_spec(dims, extents, coords, spec_fn, name=None, kind="f"):
